@@ -5,6 +5,7 @@ import (
 	"context"
 	"fmt"
 	"io"
+	"strings"
 	"sync"
 	"testing"
 	"testing/synctest"
@@ -764,4 +765,112 @@ func TestC02(t *testing.T) {
 			rt.Fatalf("C02 mode=%s threshold=%d ops=%v close=%v/%d/%d pingStorm=%v peerClose=%x: %s", mode.Name, th, ops, doClose, code, len(reason), storm, peerClose, msg)
 		}
 	})
+}
+
+// TestC02CloseQueued: a Write is held up in the transport (zero window) with the frame lock
+// taken; Close queues behind it; then a further frame writer (Ping, Write, streamed Write,
+// another Close) queues behind the Close; the window opens. Whatever the order in which the
+// waiters get the lock, what the endpoint emits stays a conformant stream: the held-up message
+// intact, and nothing behind the Close frame (RFC 6455 section 5.5.1). Enumerated.
+func TestC02CloseQueued(t *testing.T) {
+	rec := evid.For("C02")
+	for _, mode := range []c03Mode{c16Modes[0], c16Modes[1], c16Modes[2], c16Modes[4]} {
+		for _, later := range []string{"ping", "write", "write-big", "writer", "close", "ping+write"} {
+			for _, size := range []int{100, 9000} {
+				desc := fmt.Sprintf("closequeued|%s|%s|%d", mode.Name, later, size)
+				var msg string
+				synctest.Test(t, func(t *testing.T) {
+					e := newEnv(t)
+					defer e.Teardown()
+					lc, err := e.open(connSpec{Client: mode.Client, Mode: mode.Mode, Ext: mode.Ext})
+					if err != nil {
+						msg = "handshake: " + err.Error()
+						return
+					}
+					p := lc.Peer
+					p.onFrame = func(f ref.Frame) {
+						switch f.Opcode {
+						case ref.OpClose:
+							p.send(ref.Frame{Fin: true, Opcode: ref.OpClose, Payload: f.Payload})
+						case ref.OpPing:
+							p.send(ref.Frame{Fin: true, Opcode: ref.OpPong, Payload: f.Payload})
+						}
+					}
+					p.start(e)
+					e.Go(func() {
+						for {
+							if _, _, err := lc.C.Read(context.Background()); err != nil {
+								return
+							}
+						}
+					})
+					ctx := context.Background()
+					held := expand(ckRandom, 11, size)
+					lc.End.SetInBudget(1) // the first byte of the frame gets out: the writer holds the frame lock
+					var werr error
+					wd := e.Call(func() { werr = lc.C.Write(ctx, websocket.MessageBinary, held) })
+					synctest.Wait()
+					cd := e.Call(func() { lc.C.Close(websocket.StatusNormalClosure, "queued close") })
+					synctest.Wait()
+					var ld []<-chan struct{}
+					queue := func(f func()) {
+						ld = append(ld, e.Call(f))
+						synctest.Wait()
+					}
+					lctx, lcancel := context.WithTimeout(ctx, 20*time.Second)
+					defer lcancel()
+					if strings.Contains(later, "ping") {
+						queue(func() { lc.C.Ping(lctx) })
+					}
+					switch {
+					case strings.HasSuffix(later, "write"):
+						queue(func() { lc.C.Write(lctx, websocket.MessageText, []byte("queued behind the close")) })
+					case later == "write-big":
+						queue(func() { lc.C.Write(lctx, websocket.MessageBinary, expand(ckText, 5, 70000)) })
+					case later == "writer":
+						queue(func() {
+							if w, err := lc.C.Writer(lctx, websocket.MessageText); err == nil {
+								w.Write([]byte("streamed, queued behind "))
+								w.Write([]byte("the close"))
+								w.Close()
+							}
+						})
+					case later == "close":
+						queue(func() { lc.C.Close(websocket.StatusGoingAway, "second closer") })
+					}
+					lc.End.SetInBudget(-1)
+					for _, d := range append([]<-chan struct{}{wd, cd}, ld...) {
+						if !within(d, 60*time.Second) {
+							msg = "a call did not return within 60 s after the window opened"
+							return
+						}
+					}
+					p.waitEOF(30 * time.Second)
+					rep, verr := ref.ValidateStream(lc.End.InRecording(), ref.StreamOpts{FromClient: mode.Client, Deflate: lc.Agreed.Deflate, Takeover: lc.Agreed.SenderTakeover(mode.Client)}, false)
+					if verr != nil {
+						msg = "emitted stream not well-formed: " + verr.Error()
+						return
+					}
+					if len(rep.Closes) == 0 {
+						msg = "no Close frame on the wire"
+						return
+					}
+					if len(rep.AfterClose) > 0 {
+						f := rep.AfterClose[0]
+						msg = fmt.Sprintf("%d frame(s) follow the Close frame; the first has opcode %#x and %d payload bytes (a writer that queued behind Close got the frame lock after the Close frame had gone out)", len(rep.AfterClose), f.Opcode, len(f.Payload))
+						return
+					}
+					// (a message of several frames may be cut off by the Close frame, which is a control frame and may
+					// take its turn between them: the Write then fails. A Write that returned nil was delivered.)
+					if werr == nil && (len(rep.Messages) == 0 || !bytes.Equal(rep.Messages[0].Payload, held)) {
+						msg = "the held-up Write returned nil but its message did not arrive intact in front of the Close frame"
+					}
+				})
+				rec.Case(true, desc, "frame-writers-queued-behind-a-queued-Close")
+				if msg != "" {
+					failCase(t, "C02", desc, "%s", msg)
+				}
+			}
+		}
+	}
 }
